@@ -27,6 +27,10 @@ theorem exhaust_good (stream : Bool) (e r x : Nat) :
 /-- … evaluated at the top of the loop (so also with zero targets) -/
 theorem preCheck_good : Generated.corr_preCheck = true := by decide
 
+/-- … and its branch reports the context's error when the context has ended (`incompleteCause`), as
+    `Correctable.exhaustedErr` does -/
+theorem ctxCause_good : Generated.corr_ctxCause = true := by decide
+
 def envW (l cur : Int) (done : Bool) : Env := envOf [("level", .int l), ("c.level", .int cur), ("c.done", .bool done)]
 
 /-- `Watch(level)` is closed at registration iff the level has been reached or the call is completed -/
@@ -62,6 +66,7 @@ open GorumsV.Tie.C11 GorumsV.C11
 #print axioms initLevel_good
 #print axioms exhaust_good
 #print axioms preCheck_good
+#print axioms ctxCause_good
 #print axioms watchCmp_good
 #print axioms setCmp_good
 #print axioms replyCase_good
@@ -88,4 +93,6 @@ open GorumsV.Tie.C11 GorumsV.C11
 #print axioms run_replies_are_qf_values
 #print axioms run_watchInv
 #print axioms run_exhausted
+#print axioms run_exhausted_incomplete
+#print axioms run_exhausted_ctx
 end Audit
